@@ -1,4 +1,5 @@
 import Driver.Codec
+import LopdfModel.Spec.Inflate
 import LopdfModel.Model.Filters
 import LopdfModel.Spec.Lzw
 import LopdfModel.Spec.LzwCodec
@@ -94,6 +95,19 @@ def handle (op : String) (args : List String) : Option String :=
         else if op = "lzwout" then hexTok r.1
         else cls r.2 ++ hexTok r.1
       | _, _ => "bad-op"
+    | _ => "bad-op"
+  | "inflate" =>
+    -- the specification decoder `Spec/Inflate.zlibInflate` (RFC 1950 / 1951): `ok <hex>` for a complete stream, else `none`
+    some <| match args with
+    | [h] =>
+      match bytesOfHex h with
+      | some x => (match Lopdf.Inflate.zlibInflate x with | some o => "ok " ++ hexTok o | none => "none")
+      | none => "bad-op"
+    | _ => "bad-op"
+  | "deflate_stored" =>
+    -- the reference encoder of the round-trip theorem (stored blocks only)
+    some <| match args with
+    | [h] => (match bytesOfHex h with | some x => "ok " ++ hexTok (Lopdf.Inflate.zlibStored x) | none => "bad-op")
     | _ => "bad-op"
   | "lzwenc" =>
     -- the proved reference encoder `Spec.LzwC.lzwEncode`
